@@ -49,7 +49,8 @@ def configs(tier):
 def run_one(seed, tape, opts):
     w = cc.setup(tape, opts, relay_ok=False)
     sim = w.sim
-    wl = cc.Workload(w, tape, max_subs=3, max_ops=12)
+    wl = cc.Workload(w, tape, max_subs=3, max_ops=12,
+                     listen_late=tape.choose(3, "listen_late") == 0)
     faults = cc.L2Faults(w, tape, tape.choose(5, "fb") if
                          opts.get("faults", True) else 0)
     faults.candidate_cuts = False   # C11 explores the connection race
@@ -92,6 +93,23 @@ def run_one(seed, tape, opts):
                       "delivered exactly once", "%s: connect(%r) failed with "
                       "%s" % (s.name, rec[0], rec[2].__name__))
                     return
+        for s in w.sides:
+            # opens of one subprotocol reach the peer application in the
+            # order they were issued (ids are allocated in issue order)
+            last = {}
+            for q in w.peer_of(s).protocols:
+                if q.role != "acceptor" or not q.made or q.scid is None:
+                    continue
+                if q.scid % 2 != (1 if s is w.leader else 0):
+                    continue          # opened by the other side
+                if last.get(q.name, -1) > q.scid:
+                    V("C10.opens_out_of_order", "every open is delivered to "
+                      "the peer application exactly once, in the order "
+                      "issued", "%s's %r subchannels reached the peer "
+                      "application as id %d before id %d" %
+                      (s.name, q.name, last[q.name], q.scid))
+                    return
+                last[q.name] = q.scid
         for s, p, qs in cc.subchannel_pairs(w):
             if len(qs) > 1:
                 V("C10.open_twice", "each open is delivered exactly once",
